@@ -272,6 +272,19 @@ def long_cases():
                 ops += [["block", i, 1], ["process"]]
             ops += [["check"], ["headers", []], ["check"], ["restartnode"], ["version"], ["check"]]
         res.append({"cfg": {"parents": par, "start": start}, "ops": ops})
+    # a block that is not the next one reaches the block processing step exactly when the tip is the last header of a
+    # block file (height 999 mod 1000, the cached newest file is rolled over by the next add): a block with a wrong
+    # body is refused, then its child is delivered; and the same one block earlier / later
+    for tip in (999, 998, 1000):
+        last = tip + 3
+        par = [[i, i - 1] for i in range(1, last + 1)]
+        start = tip - 4
+        ops = [["version"], ["check"], ["headers", [[i, i - 1] for i in range(1, last + 1)]]]
+        for i in range(start, tip + 1):
+            ops += [["block", i, 1], ["process"]]
+        ops += [["block", tip + 1, 0], ["process"], ["block", tip + 2, 1], ["process"], ["block", tip + 3, 1], ["process"],
+                ["check"], ["headers", []], ["check"]]
+        res.append({"cfg": {"parents": par, "start": start}, "ops": ops})
     return res
 
 
